@@ -35,4 +35,10 @@ Example C38_example_stage :
   end = (Some (this (peval (pderivn 1 (lagrange (firstn 3 ex_grid) 1)) (Q2Qc (1 # 3)))), Some 0)
   /\ this (peval (pderivn 1 (lagrange (firstn 3 ex_grid) 1)) (Q2Qc (1 # 3))) = 16 # 9.
 Proof. split; vm_compute; reflexivity. Qed.
+(* both sides of the totality theorem occur: the empty grid and a wrapping index space throw *)
+Example C38_example_throws :
+  fdiff [] 0 (Q2Qc 0) = ErrExn EXN_SYMENGINE /\
+  fdiff (map Q2Qc [0; 1]) 2147483648 (Q2Qc 0) = ErrExn EXN_SYMENGINE /\
+  guard_size 2 2147483648 = false /\ guard_size 0 0 = false.
+Proof. repeat split; vm_compute; reflexivity. Qed.
 Print Assumptions C38_example_exact.
